@@ -231,10 +231,10 @@ def run_harness(bdir, sc, harness, tier, deadline, env_extra=None):
 def merge(stats):
     m = {"executions": 0, "choice_points": 0, "distinct_observations": 0, "infra_errors": 0, "crashes": 0, "replay_checked": 0,
          "replay_mismatch": 0, "configs_total": 0, "configs_done": 0, "capped_configs": 0, "max_trace": 0, "trace_overflow": 0,
-         "viol_overflow": 0, "real_exec_validated": 0, "real_exec_mismatch": 0, "bfs_states": 0, "bfs_max_depth": 0, "deadline_hit": False, "outcomes": {}, "deviations": {}, "clause_hits": {}, "violations": [], "samples": []}
+         "viol_overflow": 0, "real_exec_validated": 0, "real_exec_mismatch": 0, "free_run_validated": 0, "free_run_mismatch": 0, "bfs_states": 0, "bfs_max_depth": 0, "deadline_hit": False, "outcomes": {}, "deviations": {}, "clause_hits": {}, "violations": [], "samples": []}
     for s in stats:
         for k in ("executions", "choice_points", "distinct_observations", "infra_errors", "crashes", "replay_checked", "replay_mismatch",
-                  "configs_done", "capped_configs", "trace_overflow", "viol_overflow", "bfs_states", "real_exec_validated", "real_exec_mismatch"):
+                  "configs_done", "capped_configs", "trace_overflow", "viol_overflow", "bfs_states", "real_exec_validated", "real_exec_mismatch", "free_run_validated", "free_run_mismatch"):
             m[k] += s.get(k, 0)
         m["bfs_max_depth"] = max(m["bfs_max_depth"], s.get("bfs_max_depth", 0))
         m["configs_total"] = s["configs_total"]
@@ -546,7 +546,7 @@ def check(prop, tier):
                 other[v["prop"] + "/" + v["clause"]] = other.get(v["prop"] + "/" + v["clause"], 0) + v["count"]
     exhaustive = (not any(m["deadline_hit"] for m in allm) and tot["capped_configs"] == 0 and tot["infra_errors"] == 0
                   and tot["configs_done"] == tot["configs_total"] and tot["trace_overflow"] == 0 and tot["replay_mismatch"] == 0 and not errs_all
-                  and sum(m["real_exec_mismatch"] for m in allm) == 0)
+                  and sum(m["real_exec_mismatch"] + m["free_run_mismatch"] for m in allm) == 0)
     samples = []
     for m in allm:
         for s in m["samples"][:3]:
@@ -558,7 +558,8 @@ def check(prop, tier):
             "states": (sum(m["bfs_states"] for m in allm) or tot["distinct_observations"]),
             # every execution is at least the transition out of the initial state of its configuration; choice points passed come on top
             "transitions": (tot["executions"] if any(m["bfs_states"] for m in allm) else tot["choice_points"] + tot["executions"]),
-            "traces_validated_against_impl": tot["replay_checked"] + sum(m["real_exec_validated"] for m in allm),
+            "traces_validated_against_impl": tot["replay_checked"] + sum(m["real_exec_validated"] + m["free_run_validated"] for m in allm),
+            "validated_free_running": sum(m["free_run_validated"] for m in allm), "free_run_mismatch": sum(m["free_run_mismatch"] for m in allm),
             "validated_real_exec": sum(m["real_exec_validated"] for m in allm), "real_exec_mismatch": sum(m["real_exec_mismatch"] for m in allm),
             "evaluations": tot["executions"], "distinct_nontrivial": tot["distinct_observations"],
             "rule": "one evaluation = one complete execution of the real library under one choice sequence (schedule of child steps, fault answers, "
